@@ -6,6 +6,7 @@ import (
 
 	"github.com/crillab/gophersat/solver"
 
+	"verifmc/internal/choice"
 	"verifmc/internal/core"
 	"verifmc/internal/tt"
 )
@@ -109,93 +110,169 @@ func (c10) Enumerate(tier string, seed int64, yield func(string, core.Case) bool
 	}
 }
 
-func (c10) Exec(cc core.Case, r *core.Rec) []core.Failure {
-	c := cc.(AssumeCase)
-	n := c.Base.Declared()
-	baseRef := c.Base.Ref()
-	refs := make([]tt.Set, len(c.Rounds))
-	for i, as := range c.Rounds {
+// roundsRun executes Assume+Solve rounds on a fresh solver under the currently installed
+// controller and judges every round against the truth table of base AND that round's assumptions.
+type roundsRun struct {
+	fails    []core.Failure
+	verdicts string
+	stats    solver.Stats
+	lines    []string // certificate lines (when certified)
+}
+
+func runRounds(base Prob, rounds [][]int, certified bool) (rr roundsRun) {
+	n := base.Declared()
+	baseRef := base.Ref()
+	add := func(round int, kind, detail string) {
+		rr.fails = append(rr.fails, core.Failure{Sig: kind, Detail: fmt.Sprintf("round %d of %v, assume %v: %s", round, rounds, rounds[round], detail)})
+	}
+	var pb *solver.Problem
+	var err error
+	if pn, v := core.Safely(func() { pb, err = base.Build() }); pn || err != nil {
+		rr.fails = []core.Failure{{Sig: "base-build-failed", Detail: fmt.Sprint(v, err)}}
+		return
+	}
+	var s *solver.Solver
+	if pn, _ := guard(func() { s = solver.New(pb) }); pn != "" {
+		rr.fails = []core.Failure{{Sig: "new-panic", Detail: pn}}
+		return
+	}
+	var ch chan string
+	var drained chan struct{}
+	if certified {
+		ch = make(chan string, 256)
+		drained = make(chan struct{})
+		go func() {
+			for l := range ch {
+				rr.lines = append(rr.lines, l)
+			}
+			close(drained)
+		}()
+		s.Certified = true
+		s.CertChan = ch
+		defer func() {
+			close(ch)
+			<-drained
+		}()
+	}
+	for i, as := range rounds {
+		lits := make([]solver.Lit, len(as))
+		for k, l := range as {
+			lits[k] = solver.IntToLit(int32(l))
+		}
+		var st solver.Status
+		var model []bool
+		pn, ab := guard(func() {
+			st = s.Assume(lits)
+			if st != solver.Unsat {
+				st = s.Solve()
+			}
+			if st == solver.Sat {
+				model = s.Model()
+			}
+		})
+		if pn != "" {
+			add(i, "panic", pn)
+			return
+		}
+		if ab {
+			add(i, "nontermination", "step budget exceeded")
+			return
+		}
 		f := append([]tt.Constr{}, baseRef...)
 		for _, l := range as {
 			f = append(f, tt.Clause(l))
 		}
-		refs[i] = tt.Models(n, f)
+		models := tt.Models(n, f)
+		sat := !models.IsEmpty()
+		switch st {
+		case solver.Sat:
+			rr.verdicts += "S"
+			if !sat {
+				add(i, "sat-on-unsatisfiable", fmt.Sprintf("model %v; the problem with these assumptions has no model", model))
+			} else if len(model) != n {
+				add(i, "model-length", fmt.Sprintf("model has %d values, %d variables declared", len(model), n))
+			} else if !models.Has(tt.FromBools(model)) {
+				add(i, "invalid-model", fmt.Sprintf("model %v violates the problem (units included) or an assumption", model))
+			}
+		case solver.Unsat:
+			rr.verdicts += "U"
+			if sat {
+				add(i, "unsat-on-satisfiable", "the problem with these assumptions has a model")
+			}
+		default:
+			add(i, "indet", fmt.Sprintf("status %d", st))
+		}
+		if len(rr.fails) > 0 {
+			return
+		}
 	}
+	rr.stats = s.Stats
+	return
+}
+
+func (c10) Exec(cc core.Case, r *core.Rec) []core.Failure {
+	c := cc.(AssumeCase)
+	n := c.Base.Declared()
+	baseModels := tt.Models(n, c.Base.Ref())
 	return exploreProb(r, c.Dev, c, "assumption-rounds", func(choices []int) []core.Failure {
-		var fs []core.Failure
-		add := func(round int, kind, detail string) {
-			fs = append(fs, core.Failure{Sig: kind, Detail: fmt.Sprintf("round %d assume %v: %s", round, c.Rounds[round], detail)})
+		rr := runRounds(c.Base, c.Rounds, false)
+		if len(rr.fails) > 0 {
+			return rr.fails
 		}
-		var pb *solver.Problem
-		var err error
-		if pn, v := core.Safely(func() { pb, err = c.Base.Build() }); pn || err != nil {
-			return []core.Failure{{Sig: "base-build-failed", Detail: fmt.Sprint(v, err)}}
-		}
-		var s *solver.Solver
-		if pn, _ := guard(func() { s = solver.New(pb) }); pn != "" {
-			return []core.Failure{{Sig: "new-panic", Detail: pn}}
-		}
-		verdicts := ""
-		for i, as := range c.Rounds {
-			lits := make([]solver.Lit, len(as))
-			for k, l := range as {
-				lits[k] = solver.IntToLit(int32(l))
-			}
-			var st solver.Status
-			var model []bool
-			pn, ab := guard(func() {
-				st = s.Assume(lits)
-				if st != solver.Unsat {
-					st = s.Solve()
-				}
-				if st == solver.Sat {
-					model = s.Model()
-				}
-			})
-			if pn != "" {
-				add(i, "panic", pn)
-				return fs
-			}
-			if ab {
-				add(i, "nontermination", "step budget exceeded")
-				return fs
-			}
-			models := refs[i]
-			sat := !models.IsEmpty()
-			switch st {
-			case solver.Sat:
-				verdicts += "S"
-				if !sat {
-					add(i, "sat-on-unsatisfiable", fmt.Sprintf("model %v; the problem with these assumptions has no model", model))
-				} else if len(model) != n {
-					add(i, "model-length", fmt.Sprintf("model has %d values, %d variables declared", len(model), n))
-				} else if !models.Has(tt.FromBools(model)) {
-					add(i, "invalid-model", fmt.Sprintf("model %v violates the problem (units included) or an assumption", model))
-				}
-			case solver.Unsat:
-				verdicts += "U"
-				if sat {
-					add(i, "unsat-on-satisfiable", "the problem with these assumptions has a model")
-				}
-			default:
-				add(i, "indet", fmt.Sprintf("status %d", st))
-			}
-			if len(fs) > 0 {
-				return fs
-			}
-		}
-		countStats(r, s.Stats)
+		countStats(r, rr.stats)
 		mixed := false
-		for i := 1; i < len(verdicts); i++ {
-			if verdicts[i] != verdicts[0] {
+		for i := 1; i < len(rr.verdicts); i++ {
+			if rr.verdicts[i] != rr.verdicts[0] {
 				mixed = true
 			}
 		}
-		if mixed || s.Stats.NbConflicts > 0 {
+		if mixed || rr.stats.NbConflicts > 0 {
 			r.NonTrivial()
 		}
-		r.Outcome(verdicts + fmt.Sprintf("/confl=%d", min3(s.Stats.NbConflicts)))
-		return fs
+		r.Outcome(rr.verdicts + fmt.Sprintf("/confl=%d", min3(rr.stats.NbConflicts)))
+		if rr.stats.NbLearned+rr.stats.NbUnitLearned == 0 {
+			return nil
+		}
+		// Leads: something was learned under assumptions. Anything the solver keeps must stay
+		// harmless in later rounds; the certificate channel shows what was learned. For every
+		// emitted clause C that the base formula does not imply, the history is extended by one
+		// round assuming the negation of C (satisfiable together with the base by construction) and
+		// that round is judged like any other. Only the property's own statement decides.
+		opts := currentOpts
+		var twin roundsRun
+		choice.Explore(opts, append([]int{}, choices...), func(_ *choice.Ctl, _ []int) bool {
+			twin = runRounds(c.Base, c.Rounds, true)
+			return true
+		})
+		r.Execution()
+		seen := map[string]bool{}
+		followups := 0
+		for _, ln := range twin.lines {
+			cl, err := parseCertLine(ln)
+			if err != nil || len(cl) == 0 || seen[ln] {
+				continue
+			}
+			seen[ln] = true
+			if tt.Implied(baseModels, tt.Clause(cl...)) {
+				continue
+			}
+			if followups >= 6 {
+				break
+			}
+			followups++
+			ext := append(append([][]int{}, c.Rounds...), negAll(cl))
+			var fr roundsRun
+			choice.Explore(opts, append([]int{}, choices...), func(_ *choice.Ctl, _ []int) bool {
+				fr = runRounds(c.Base, ext, false)
+				return true
+			})
+			r.Execution()
+			r.Count("followup_rounds_from_learned_clause_leads", 1)
+			if len(fr.fails) > 0 {
+				return fr.fails
+			}
+		}
+		return nil
 	})
 }
 
